@@ -52,6 +52,10 @@ func checkC04(e *RunEnv) *CheckResult {
 				steps = append(steps, Run(append([]string{"add"}, al...)...).WithTags(t...))
 				steps = append(steps, Run(append([]string{"rm"}, al...)...).WithTags(t...))
 			}
+			for _, al := range [][]string{{"a", "d", "nope"}, {"a", "d/x", "d-x"}, {"d/s", "a", "ad"}} {
+				t3 := pathArgTags(a, al)
+				steps = append(steps, Run(append([]string{"add"}, al...)...).WithTags(t3...), Run(append([]string{"rm"}, al...)...).WithTags(t3...))
+			}
 			steps = append(steps, Run("rm", "d", "-r").WithTags(pathArgTags(a, []string{"d"})...), Run("rm", "-r", "d/s").WithTags(pathArgTags(a, []string{"d/s"})...))
 			for _, p := range paths {
 				if d, ok := a.W[p]; ok {
